@@ -1,6 +1,7 @@
 (* C15 — Zip and Tar archives round-trip any tree (member-name handling model; container formats are zipfile/tarfile's). *)
-From Coq Require Import List NArith Bool Arith.
-From PyFS Require Import Base.PyStr Base.Outcome Path.PathModel Path.PathSpec Archive.Members Archive.MembersProofs.
+From Coq Require Import List NArith ZArith Bool Arith.
+From PyFS Require Import Base.PyStr Base.Outcome Path.PathModel Path.PathSpec FS.Tree FS.Monad FS.Mem FS.Ref FS.Wf
+     Archive.Members Archive.MembersProofs Archive.TreeArch Archive.TreeArchProofs.
 Import ListNotations.
 
 Theorem C15_tar_names_safe :
@@ -74,3 +75,225 @@ Theorem C15_zip_member_name_file :
        ends_c slash (zip_member_name (walk_path cs) false) = false.
 Proof. exact @zip_member_name_file. Qed.
 Print Assumptions C15_zip_member_name_file.
+
+(* ---- tree level (Archive/TreeArch*.v): an archive = the ordered list of members handed to / got from zipfile/tarfile;
+   the writers' member lists and the readers' presented trees are compared with the model on every run ---- *)
+
+Theorem C15_tree_bfs_complete :
+  forall t : node,
+  wf_node t -> forall (p : list str) (n : node), In (p, n) (bfs t) <-> p <> [] /\ lookup t p = Some n.
+Proof. exact @bfs_complete. Qed.
+Print Assumptions C15_tree_bfs_complete.
+
+Theorem C15_tree_bfs_nodup :
+  forall t : node, wf_node t -> NoDup (map fst (bfs t)).
+Proof. exact @bfs_nodup. Qed.
+Print Assumptions C15_tree_bfs_nodup.
+
+Theorem C15_tree_bfs_code_eq :
+  forall t : node, bfs_code t = bfs t.
+Proof. exact @bfs_code_eq. Qed.
+Print Assumptions C15_tree_bfs_code_eq.
+
+Theorem C15_tree_members_follow_the_queue_walk :
+  forall (now : Z) (t : node),
+  zip_members now t = map (zip_member_of now) (bfs_code t) /\
+  tar_members now t = map (tar_member_of now) (bfs_code t).
+Proof. exact @members_follow_the_queue_walk. Qed.
+Print Assumptions C15_tree_members_follow_the_queue_walk.
+
+Theorem C15_tree_zip_roundtrip :
+  forall (now : Z) (tm : Z -> Z) (t : node),
+  wf t ->
+  names_ok t = true ->
+  zip_read (map (store tm) (zip_members now t)) =
+  {| zv_first := Ok tt; zv_tree := embed (stamp_root now tm t) |}.
+Proof. exact @zip_roundtrip. Qed.
+Print Assumptions C15_tree_zip_roundtrip.
+
+Theorem C15_tree_tar_roundtrip :
+  forall (now : Z) (tm : Z -> Z) (t : node),
+  wf t -> tar_read (map (store tm) (tar_members now t)) = stamp_root now tm t.
+Proof. exact @tar_roundtrip. Qed.
+Print Assumptions C15_tree_tar_roundtrip.
+
+Theorem C15_tree_tar_roundtrip_nothing_hidden :
+  forall (now : Z) (tm : Z -> Z) (t : node),
+  wf t -> tar_shadowed (map (store tm) (tar_members now t)) = [].
+Proof. exact @tar_roundtrip_nothing_hidden. Qed.
+Print Assumptions C15_tree_tar_roundtrip_nothing_hidden.
+
+Theorem C15_tree_stamp_files :
+  forall (now : Z) (tm : Z -> Z) (t : node), files_of (stamp_root now tm t) = files_of t.
+Proof. exact @stamp_files. Qed.
+Print Assumptions C15_tree_stamp_files.
+
+Theorem C15_tree_stamp_paths :
+  forall (now : Z) (tm : Z -> Z) (t : node), paths_of (stamp_root now tm t) = paths_of t.
+Proof. exact @stamp_paths. Qed.
+Print Assumptions C15_tree_stamp_paths.
+
+Theorem C15_tree_zip_roundtrip_content :
+  forall (now : Z) (t : node),
+  wf t ->
+  names_ok t = true ->
+  let v := zip_read (map (store zip_time) (zip_members now t)) in
+  zv_first v = Ok tt /\
+  zv_tree v = embed (stamp_root now zip_time t) /\
+  files_of (stamp_root now zip_time t) = files_of t /\ paths_of (stamp_root now zip_time t) = paths_of t.
+Proof. exact @zip_roundtrip_content. Qed.
+Print Assumptions C15_tree_zip_roundtrip_content.
+
+Theorem C15_tree_tar_roundtrip_content :
+  forall (now : Z) (t : node),
+  wf t ->
+  let r := tar_read (map (store tar_time) (tar_members now t)) in
+  r = stamp_root now tar_time t /\
+  files_of r = files_of t /\
+  paths_of r = paths_of t /\ tar_shadowed (map (store tar_time) (tar_members now t)) = [].
+Proof. exact @tar_roundtrip_content. Qed.
+Print Assumptions C15_tree_tar_roundtrip_content.
+
+Theorem C15_tree_zip_build_wf :
+  forall (b : node) (raws : list str), wf b -> wf (fst (zip_build b raws)).
+Proof. exact @zip_build_wf. Qed.
+Print Assumptions C15_tree_zip_build_wf.
+
+Theorem C15_tree_tar_read_wf :
+  forall ms : list member, wf (tar_read ms).
+Proof. exact @tar_read_wf. Qed.
+Print Assumptions C15_tree_tar_read_wf.
+
+Theorem C15_tree_read_confined :
+  forall (ms : list member) (p : list str),
+  In p (vpaths (zv_tree (zip_read ms))) \/ In p (vpaths (embed (tar_read ms))) ->
+  p <> [] /\
+  Forall good p /\
+  normpath (to_path true p) = Ok (to_path true p) /\ resolve (comps (to_path true p)) = Some p.
+Proof. exact @read_confined. Qed.
+Print Assumptions C15_tree_read_confined.
+
+Theorem C15_tree_read_total :
+  forall ms : list member,
+  (list_tar (map m_name ms) = Ok (tar_names (map m_name ms)) /\ wf (tar_read ms)) /\
+  (let o := zv_first (zip_read ms) in
+  o = Ok tt \/ o = Err IllegalBackReference \/ o = Err DirectoryExpected \/ o = Err InvalidCharsInPath) /\
+  wf (fst (zip_build empty_dir (map m_name ms))).
+Proof. exact @read_total. Qed.
+Print Assumptions C15_tree_read_total.
+
+Theorem C15_tree_zip_first_cases :
+  forall ms : list member,
+  let o := zv_first (zip_read ms) in
+  o = Ok tt \/ o = Err IllegalBackReference \/ o = Err DirectoryExpected \/ o = Err InvalidCharsInPath.
+Proof. exact @zip_first_cases. Qed.
+Print Assumptions C15_tree_zip_first_cases.
+
+Theorem C15_tree_zip_build_stops :
+  forall (b : node) (raws : list str) (b' : node) (e : ecls),
+  zip_build b raws = (b', Err e) ->
+  exists (l1 : list str) (raw : str) (l2 : list str) (b1 : node),
+  raws = l1 ++ raw :: l2 /\ zip_build b l1 = (b1, Ok tt) /\ zstep b1 raw = (b', Err e).
+Proof. exact @zip_build_stops. Qed.
+Print Assumptions C15_tree_zip_build_stops.
+
+Theorem C15_tree_zip_climber_raises :
+  forall (b : node) (raw : str),
+  has_char nul raw = false -> resolve (comps raw) = None -> zstep b raw = (b, Err IllegalBackReference).
+Proof. exact @zip_climber_raises. Qed.
+Print Assumptions C15_tree_zip_climber_raises.
+
+Theorem C15_tree_tar_read_drops_climbers :
+  forall (l1 : list member) (m : member) (l2 : list member),
+  resolve (comps (m_name m)) = None -> tar_read (l1 ++ m :: l2) = tar_read (l1 ++ l2).
+Proof. exact @tar_read_drops_climbers. Qed.
+Print Assumptions C15_tree_tar_read_drops_climbers.
+
+Theorem C15_tree_zstep_idempotent :
+  forall (b : node) (raw : str) (b' : node),
+  wf b -> zstep b raw = (b', Ok tt) -> zstep b' raw = (b', Ok tt).
+Proof. exact @zstep_idempotent. Qed.
+Print Assumptions C15_tree_zstep_idempotent.
+
+Theorem C15_tree_zip_dup_last :
+  forall (pre : list member) (m : member) (post : list member),
+  Forall (fun x : member => m_name x <> m_name m) post -> zfind (pre ++ m :: post) (m_name m) = Some m.
+Proof. exact @zip_dup_last. Qed.
+Print Assumptions C15_tree_zip_dup_last.
+
+Theorem C15_tree_tar_dup_last :
+  forall (ms : list member) (m : member) (k : str),
+  tar_key (m_name m) = Some k ->
+  In k (keys (tar_entries ms)) ->
+  keys (tar_entries (ms ++ [m])) = keys (tar_entries ms) /\ assoc k (tar_entries (ms ++ [m])) = Some m.
+Proof. exact @tar_dup_last. Qed.
+Print Assumptions C15_tree_tar_dup_last.
+
+Theorem C15_tree_tar_shadowed_iff :
+  forall (ms : list member) (k : str),
+  In k (tar_shadowed ms) <->
+  In k (keys (tar_entries ms)) /\
+  (exists (p q : list str) (m : member),
+  comps k = p ++ q /\
+  p <> [] /\ q <> [] /\ assoc (to_path false p) (tar_entries ms) = Some m /\ m_dir m = false).
+Proof. exact @tar_shadowed_iff. Qed.
+Print Assumptions C15_tree_tar_shadowed_iff.
+
+Theorem C15_tree_tar_key_present :
+  forall (ms : list member) (k : str) (m : member),
+  assoc k (tar_entries ms) = Some m ->
+  ~ In k (tar_shadowed ms) ->
+  exists n : node,
+  lookup (tar_read ms) (comps k) = Some n /\
+  is_dir n = m_dir m /\
+  node_mt n = Some (m_mt m) /\ (m_dir m = false -> n = File (m_data m) (Some (m_mt m))).
+Proof. exact @tar_key_present. Qed.
+Print Assumptions C15_tree_tar_key_present.
+
+Theorem C15_tree_tar_implicit_directories :
+  forall (ms : list member) (k : str) (p q : list str),
+  In k (keys (tar_entries ms)) ->
+  ~ In k (tar_shadowed ms) ->
+  comps k = p ++ q ->
+  q <> [] -> exists (e : list (str * node)) (mt : option Z), lookup (tar_read ms) p = Some (Dir e mt).
+Proof. exact @tar_implicit_directories. Qed.
+Print Assumptions C15_tree_tar_implicit_directories.
+
+Theorem C15_tree_zip_implicit_directories :
+  forall (ms : list member) (m : member) (cs p q : list str),
+  zv_first (zip_read ms) = Ok tt ->
+  In m ms ->
+  resolve (comps (m_name m)) = Some cs ->
+  cs = p ++ q ->
+  q <> [] ->
+  exists (e : list (str * vnode)) (mt : option Z), vlookup (zv_tree (zip_read ms)) p = Some (VDir e mt).
+Proof. exact @zip_implicit_directories. Qed.
+Print Assumptions C15_tree_zip_implicit_directories.
+
+Theorem C15_tree_zip_member_present :
+  forall (ms : list member) (m : member) (cs : list str),
+  zv_first (zip_read ms) = Ok tt ->
+  In m ms ->
+  resolve (comps (m_name m)) = Some cs ->
+  exists v : vnode,
+  vlookup (zv_tree (zip_read ms)) cs = Some v /\
+  (ends_c slash (m_name m) = true -> exists (e : list (str * vnode)) (mt : option Z), v = VDir e mt).
+Proof. exact @zip_member_present. Qed.
+Print Assumptions C15_tree_zip_member_present.
+
+Theorem C15_tree_zstep_is_mem :
+  forall (b : node) (raw : str), wf b -> has_char nul raw = false -> zstep_mem raw b = zstep b raw.
+Proof. exact @zstep_is_mem. Qed.
+Print Assumptions C15_tree_zstep_is_mem.
+
+Theorem C15_tree_tar_tree_isdir :
+  forall (ms : list member) (p : list str),
+  Forall good p ->
+  (forall (p1 p2 : list str) (m : member),
+  p = p1 ++ p2 ->
+  p1 <> [] -> p2 <> [] -> assoc (to_path false p1) (tar_entries ms) = Some m -> m_dir m = true) ->
+  (exists (e : list (str * node)) (mt : option Z), lookup (tar_read ms) p = Some (Dir e mt)) <->
+  tar_isdir_q (tar_entries ms) (to_path false p) = true.
+Proof. exact @tar_tree_isdir. Qed.
+Print Assumptions C15_tree_tar_tree_isdir.
+
